@@ -8,6 +8,7 @@ import (
 	"math/rand"
 	"sort"
 	"strings"
+	"sync"
 
 	"github.com/pokt-network/pocket-core/codec"
 	codectypes "github.com/pokt-network/pocket-core/codec/types"
@@ -61,6 +62,11 @@ type c26env struct {
 	fee, pool, dao sdk.Address
 }
 
+var (
+	c26cdcOnce sync.Once
+	c26cdc     *codec.Codec
+)
+
 // newC26Env builds the bench at the given height (everything is written and read at one height: the account
 // and validator encodings depend on it).
 func newC26Env(height int64) (*c26env, error) {
@@ -78,11 +84,16 @@ func newC26Env(height int64) (*c26env, error) {
 	ctx := sdk.NewContext(ms, abci.Header{ChainID: "verif-c26", Height: height}, false, log.NewNopLogger()).WithAppVersion("0.0.0")
 	ctx = ctx.WithConsensusParams(&abci.ConsensusParams{Validator: &abci.ValidatorParams{PubKeyTypes: []string{tmtypes.ABCIPubKeyTypeEd25519}}})
 	ctx = ctx.WithBlockHeight(height)
-	cdc := codec.NewCodec(codectypes.NewInterfaceRegistry())
-	auth.RegisterCodec(cdc)
-	gov.RegisterCodec(cdc)
-	sdk.RegisterCodec(cdc)
-	crypto.RegisterAmino(cdc.AminoCodec().Amino)
+	// one codec for the whole process: the modules' RegisterCodec functions assign package-level codecs, which must not
+	// happen while scenarios of other goroutines are marshalling with them
+	c26cdcOnce.Do(func() {
+		c26cdc = codec.NewCodec(codectypes.NewInterfaceRegistry())
+		auth.RegisterCodec(c26cdc)
+		gov.RegisterCodec(c26cdc)
+		sdk.RegisterCodec(c26cdc)
+		crypto.RegisterAmino(c26cdc.AminoCodec().Amino)
+	})
+	cdc := c26cdc
 	maccPerms := map[string][]string{
 		auth.FeeCollectorName:     nil,
 		nodestypes.StakedPoolName: {auth.Burner, auth.Staking, auth.Minter},
